@@ -94,6 +94,42 @@ def lp(*nals):
     return b"".join(len(n).to_bytes(4, "big") + n for n in nals)
 
 
+def ue_bomb_insertions(ident, kind, sps, pps, slc, hdrlen, q, seed):
+    """H7: a huge Exp-Golomb code inserted at EVERY bit position of the SPS (and of the PPS) of a valid (SPS, PPS, slice)
+    triple; the rest of the parameter set follows the bomb, and the later units are parsed against what was accepted.
+    Wherever a ue(v) / se(v) element starts, the parser reads 2^32-1, 2^32, 2^63 or 2^64-2 there."""
+    def rbsp_bits(nal):
+        raw, z = bytearray(), 0
+        for c in nal[hdrlen:]:
+            if z >= 2 and c == 3:
+                z = 0
+                continue
+            raw.append(c)
+            z = z + 1 if c == 0 else 0
+        bits = []
+        for c in raw:
+            bits += [(c >> (7 - i)) & 1 for i in range(8)]
+        while bits and bits[-1] == 0:
+            bits.pop()
+        return bits[:-1]                                   # without the rbsp stop bit
+    bombs = [("ue-2^32-1", [0] * 32 + [1] + [0] * 32), ("ue-2^32", [0] * 32 + [1] + [0] * 31 + [1]),
+             ("ue-2^63-1", [0] * 63 + [1] + [0] * 63), ("ue-2^64-2", [0] * 63 + [1] + [1] * 63)]
+    out = []
+    for target, nal in (("sps", sps), ("pps", pps)):
+        bits = rbsp_bits(nal)
+        step = 3 if q else 1
+        for pos in range(0, len(bits) + 1):
+            if pos % step != seed % step and pos > 24:
+                continue
+            for bname, bomb in bombs:
+                w = rc.BitW()
+                w.bits = bits[:pos] + bomb + bits[pos:]
+                mutated = w.bytes_rbsp(nal[:hdrlen])
+                seq = lp(mutated, pps, slc) if target == "sps" else lp(sps, mutated, slc)
+                out.append(("H7/%s/%s-bit%d-%s" % (ident, target, pos, bname), kind, seq))
+    return out
+
+
 def context_bombs():
     """H6: NAL unit sequences that bring their own context: the count / range bomb sits in a parameter set and goes
     off while a LATER unit (slice header, SEI) is parsed against it."""
@@ -380,6 +416,7 @@ def run(ctx):
     items += bombs()
     # H6: parameter sets + slice header / SEI parsed in sequence: context bombs and the (sps, pps, slice) triples of both syntax specs
     items += context_bombs()
+    h7_count = 0
     for mod, cfg, kind in (("AvcSyntax", "Avc_slice_quick.cfg", "ctx-avc"), ("HevcSyntax", "Hevc_slice_quick.cfg", "ctx-hevc")):
         r = ctx.tlc_ok(mod, cfg, workers=12, timeout=3000, heap="12g", stack="256m")
         step = 60 if q else 6
@@ -389,6 +426,19 @@ def run(ctx):
                 seq = lp(bytes(e["spsnal"]), bytes(e["ppsnal"]), bytes(e["nal"]))
                 items.append(("H6/%s-triple%d" % (kind, i), kind, seq))
                 items += rc.mutate(seq, kind, "H6/%s-triple%d" % (kind, i), dense=48, first=0)
+        # H7 bases: one triple per PPS vector (tiles, extensions, slice groups ... differ per PPS), evenly spread over the
+        # distinct PPS NAL units; plus, per PPS pair-up, whatever SPS the triple brings
+        first = {}
+        for i, e in enumerate(ex):
+            first.setdefault(bytes(e["ppsnal"]), (i, e))
+        ppss = sorted(first)
+        want = 8 if q else 48
+        stride = max(1, len(ppss) // want)
+        for k in range(ctx.seed % stride, len(ppss), stride):
+            i, e = first[ppss[k]]
+            h7 = ue_bomb_insertions("%s-triple%d" % (kind, i), kind, bytes(e["spsnal"]), bytes(e["ppsnal"]), bytes(e["nal"]), 1 if kind == "ctx-avc" else 2, q, ctx.seed)
+            items += h7
+            h7_count += len(h7)
     # H4: SEI NAL units and typed payloads (SeiSyntax.tla) mutated
     r = ctx.tlc_ok("SeiSyntax", "Sei_list_quick.cfg", workers=12, timeout=3000, heap="12g", stack="128m")
     step = 300 if q else 40
@@ -436,6 +486,7 @@ def run(ctx):
                          "H5": "ASC, ADTS, avcC, hvcC, av1C: every prefix, head substitutions",
                          "H6": "NAL unit sequences with their own context (SPS, PPS, then slice header / SEI parsed against them): count and range bombs placed in the parameter sets "
                                "(reference index counts, slice group change rate, HRD cpb counts, sub-picture HRD flags) and the (sps, pps, slice) triples of AvcSyntax.tla / HevcSyntax.tla with mutations",
+                         "H7": "%d inputs: Exp-Golomb codes 2^32-1, 2^32, 2^63-1, 2^64-2 inserted at every bit position of the SPS and of the PPS of (SPS, PPS, slice) triples serialised by AvcSyntax.tla / HevcSyntax.tla; the later units are parsed against what was accepted" % h7_count,
                          "tools": "the built mp4ff-nallister (-annexb, avc / hevc, -sei 2 -ps) and mp4ff-pslister on %d Annex B streams (one per structural signature - leading bytes, start code lengths, unit length classes 0/1/2/3+, first bytes; %d signatures - plus a sample of the rest): %d runs; and on %d media segments without moov holding one generated sample each, with every spelling of -c (avc, h264, h.264, hevc, h265, h.265) and -sei 1 / 2: %d runs; exit by panic or no return within 20 s is a violation" % (tool_stats["inputs"], tool_stats["signatures"], tool_stats["runs"], tool_stats["segments"], tool_stats["segment_runs"]),
                          "budgets": "2 s + 20 us/byte wall, 16 MiB + 1024 x length allocated, worker under ulimit -v 8 GB", "fatal_worker_crashes": fatals}
     ctx.cov["rule"] = ("inputs = Robust.tla H1 grammar (exhaustive) + mutation operators applied to behaviours exported by the syntax specs; "
